@@ -34,11 +34,14 @@ CONFIGS = [
     ("Thermal_static", "Thermal", ["thermal"]),
     ("Thermal_parabolic", "Thermal", ["thermal", "thermalDot"]),
     ("Beam_static", "Beam", ["displacement"]),
+    ("Beam_newmark", "Beam", ["displacement", "speed", "accel"]),
     ("PhaseField", "PhaseField", ["damage", "displacement"]),
     ("HyperElastic_static", "HyperElastic", ["displacement"]),
     ("HyperElastic_newmark", "HyperElastic", ["displacement", "speed", "accel"]),
     ("InElastic", "InElastic", ["displacement", "state"]),
     ("WeakForms_static", "WeakForms", ["u"]),
+    ("WeakForms_parabolic", "WeakForms", ["u", "v"]),
+    ("WeakForms_newmark", "WeakForms", ["u", "v", "a"]),
 ]
 SCALAR_KEYS = {"Niter", "timeIter", "convIter", "indexMesh", "newtonIter", "list_norm_r"}
 
@@ -481,7 +484,8 @@ def gen_case(rng, cid, aname, nfields_model, nkeys, length, allow, copy_fields=(
             if "write" in allow and h.nh:
                 k = rng.randrange(h.nh)
                 if not (h.after_restore and k in h.no_write_after_restore):
-                    ops.append(["WriteRet", k, h.wtok])
+                    # whole-array write, or a PARTIAL one: a single element (cell 0) / a slice (cell 1)
+                    ops.append(["WriteRet", k, h.wtok] if rng.random() < 0.4 else ["WriteRetAt", k, rng.randrange(2), h.wtok])
                     h.wtok += 1
                     h.base = None
         elif r < 0.93:
@@ -573,22 +577,26 @@ def gen_directed(rng, cid, aname, nf, nkeys, kind, allow):
 def coq_op(o):
     n = o[0]
     if n == "Solve":
-        return "Solve [%s]%%N" % "; ".join(str(t) for t in o[1])
+        return "Sv [%s]%%N" % "; ".join(str(t) for t in o[1])
+    if n == "WriteRetAt":
+        return "WriteRetAt %d %d %d%%N" % (o[1], o[2], o[3])
     if n in ("SaveIter", "SetMesh"):
         return n
     if n == "ResultQNeg":
         return "ResultQNeg %d %d" % (o[1], o[2])
     if n == "WriteRet":
-        return "WriteRet %d %d%%N" % (o[1], o[2])
+        return "Wr %d %d%%N" % (o[1], o[2])
     return "%s %s" % (n, " ".join(str(x) for x in o[1:]))
 
 
 CASES_HEAD = """From Coq Require Import List NArith. Import ListNotations.
 From EFModel Require Import C15_IterStore.
 From EFP Require Import Gen_C15.
-Definition enc_entry (o : option dictv) : list N := match o with None => [0%N] | Some (m, vs) => 1%N :: N.of_nat m :: vs end.
+(* an array is reported as its two cells (first element, all the others) *)
+Definition cells (v : val) : list N := [nth 0 v 0%N; nth 1 v 0%N].
+Definition enc_entry (o : option dictv) : list N := match o with None => [0%N] | Some (m, vs) => 1%N :: N.of_nat m :: concat (map cells vs) end.
 Definition enc (c : config) (s : state) : list (list N) :=
-  [N.of_nat (mesh s); N.of_nat (nmesh s); N.of_nat (length (store s))] :: vals s :: map enc_entry (store_vals c s).
+  [N.of_nat (mesh s); N.of_nat (nmesh s); N.of_nat (length (store s))] :: concat (map cells (vals s)) :: map enc_entry (store_vals c s).
 """
 
 
@@ -701,7 +709,7 @@ def run(ctx):
         classes = {c: derive_class(ctx.repo, c) for c in SIM_FILES}
         per_algo = {c: rates_by_algo(ctx.repo, c, ALG["all"], ALG["hyperbolic"]) for c in SIM_FILES}
         accepted = {"Elastic": ALG["all"], "HyperElastic": [a for a in ALG["all"] if a in ALG["supported"].get("HyperElastic_newmark", []) or a in ("elliptic",)],
-                    "Thermal": ["elliptic", "parabolic"], "WeakForms": ALG["all"], "Beam": ["elliptic"], "PhaseField": ["elliptic"], "InElastic": ["elliptic"]}
+                    "Thermal": ["elliptic", "parabolic"], "WeakForms": ALG["all"], "Beam": ["elliptic"] + ALG["supported"].get("Beam_newmark", []), "PhaseField": ["elliptic"], "InElastic": ["elliptic"]}
         missing = {"%s:%s" % (c, a): per_algo[c][a]["missing"] for c in per_algo for a in accepted[c] if per_algo[c][a]["missing"]}
         base["stores_all_restored_rates"] = not missing
         if missing:
@@ -751,16 +759,17 @@ def run(ctx):
     length = 14 if quick else 22
     cases = []
     cid = 0
-    unsupported = {"WeakForms_static": ("SetMesh", "SaveLoad"), "InElastic": ("SetMesh",)}
+    unsupported = {"WeakForms_static": ("SetMesh", "SaveLoad"), "WeakForms_parabolic": ("SetMesh", "SaveLoad"),
+                   "WeakForms_newmark": ("SetMesh", "SaveLoad"), "InElastic": ("SetMesh",)}
     for (aname, cname, keys) in CONFIGS:
         nf_model = cfgs[aname]["nf"] if base is not None else len(keys)
         full = {"write", "setmesh", "saveload", "presave"}
-        if aname == "WeakForms_static":
+        if aname.startswith("WeakForms"):
             full -= {"setmesh", "saveload"}
         if aname == "InElastic":
             full -= {"setmesh"}
         algos = ALG["supported"].get(aname)            # hyperbolic configurations: every accepted algorithm
-        alphas = [0.5, 0.75, 1.0] if aname == "Thermal_parabolic" else None
+        alphas = [0.5, 0.75, 1.0] if aname.endswith("_parabolic") else None
 
         def timed(c):
             if algos:
@@ -789,14 +798,14 @@ def run(ctx):
             allow = set(full)
             if j % 3 == 1:
                 allow.discard("write")   # pure histories: restore must be exact
-            if aname in ("Beam_static", "InElastic") and j % 2 == 0:
+            if aname in ("Beam_static", "Beam_newmark", "InElastic") and j % 2 == 0:
                 allow.discard("saveload")
             cases.append(timed(gen_case(ctx.rng, cid, aname, nf_model, len(keys), length, allow,
                                         cfgs[aname]["restore_copy_fields"] if base is not None else ())))
             cid += 1
         for j in range(ndirected):
             kind = ["meshes", "virgin", "last"][j % 3]
-            c = timed(gen_directed(ctx.rng, cid, aname, nf_model, len(keys), kind, full - ({"saveload"} if aname in ("Beam_static", "InElastic") else set())))
+            c = timed(gen_directed(ctx.rng, cid, aname, nf_model, len(keys), kind, full - ({"saveload"} if aname in ("Beam_static", "Beam_newmark", "InElastic") else set())))
             if kind == "last" and j < 3 * (1 if quick else 2):
                 c["twin"] = True      # a second simulation re-uses the same folders in the same process
             cases.append(c)
@@ -915,7 +924,7 @@ def run(ctx):
                 what = "%s: %s at op %d: %s" % (c["sim"], k, f["step"], json.dumps(d)[:200])
                 exp = "Load_Simu(Save(s)) observes like s"
                 ks = [k]
-            if f.get("second_simulation") and k in ("restore-fields", "get-results-value", "result-value", "restore-mesh", "restore-internal", "element-results"):
+            if f.get("second_simulation") and k not in {g["kind"] for g in r["fails"] if not g.get("second_simulation")} and k in ("restore-fields", "get-results-value", "result-value", "restore-mesh", "restore-internal", "element-results"):
                 key = "second-simulation-same-folder:" + key
                 what = "a SECOND simulation writing into the same folders in the same process reads back stale content: " + what
             if key not in seen_keys:
@@ -943,18 +952,20 @@ def run(ctx):
         nk = len(cfg["keys"])
         reg = r["reg"]
 
-        def same(tok, h, iszero):
+        def same(tok, part, cell):
+            """model cell token vs the implementation's (sha, is-zero) of that part of the array"""
             if tok == 0:
-                return iszero
-            return h in (reg.get(str(tok)) or [])
+                return part["zero"][cell]
+            return any(part["sha"][cell] == pr[cell] for pr in (reg.get(str(tok)) or []))
         dif = []
         if [m[0][0], m[0][1], m[0][2]] != [fin["mesh"], fin["nmesh"], fin["niter"]]:
             dif.append("mesh/nmesh/niter model %s impl %s" % (m[0], [fin["mesh"], fin["nmesh"], fin["niter"]]))
         else:
             for k in range(nk):
-                if cfg["stored"][k] and not same(m[1][k], fin["live"][k], fin["live_zero"][k]):
-                    dif.append("live field %s: model token %s" % (cfg["keys"][k], m[1][k]))
-            for i, e in enumerate(fin["store"]):
+                for cell in (0, 1):
+                    if cfg["stored"][k] and not same(m[1][2 * k + cell], fin["live_parts"][k], cell):
+                        dif.append("live field %s cell %d: model token %s" % (cfg["keys"][k], cell, m[1][2 * k + cell]))
+            for i, e in enumerate(fin["store_parts"]):
                 me = m[2 + i]
                 if me[0] == 0 or e[0] == "ERR":
                     if not (me[0] == 0 and e[0] == "ERR"):
@@ -963,8 +974,9 @@ def run(ctx):
                 if me[1] != e[0]:
                     dif.append("entry %d mesh index model %d impl %s" % (i, me[1], e[0]))
                 for k in range(nk):
-                    if cfg["stored"][k] and not same(me[2 + k], e[1 + k], fin["store_zero"][i][k]):
-                        dif.append("entry %d field %s: model token %s" % (i, cfg["keys"][k], me[2 + k]))
+                    for cell in (0, 1):
+                        if cfg["stored"][k] and not same(me[2 + 2 * k + cell], e[1 + k], cell):
+                            dif.append("entry %d field %s cell %d: model token %s" % (i, cfg["keys"][k], cell, me[2 + 2 * k + cell]))
             ncmp += 1
         if dif:
             mism.append((c, dif))
